@@ -457,7 +457,7 @@ func (r *tunRun) reader() {
 		}
 		d := Delivery{ID: msgID(m), At: e.Stamp()}
 		if d.ID < 0 {
-			d.Msg = fmt.Sprintf("%T%+v", m, m)
+			d.Msg = dump(m)
 		}
 		r.h.Deliv = append(r.h.Deliv, d)
 		e.S.Logf("deliver id=%d", d.ID)
